@@ -55,6 +55,9 @@ P_OpVisit.vos P_OpVisit.vok P_OpVisit.required_vos: P_OpVisit.v Ast.vos Generate
 P_Program.vo P_Program.glob P_Program.v.beautified P_Program.required_vo: P_Program.v Ast.vo Generated.vo Config.vo Model.vo
 P_Program.vio: P_Program.v Ast.vio Generated.vio Config.vio Model.vio
 P_Program.vos P_Program.vok P_Program.required_vos: P_Program.v Ast.vos Generated.vos Config.vos Model.vos
+P_SrcMap.vo P_SrcMap.glob P_SrcMap.v.beautified P_SrcMap.required_vo: P_SrcMap.v SrcMap.vo
+P_SrcMap.vio: P_SrcMap.v SrcMap.vio
+P_SrcMap.vos P_SrcMap.vok P_SrcMap.required_vos: P_SrcMap.v SrcMap.vos
 P_Telemetry.vo P_Telemetry.glob P_Telemetry.v.beautified P_Telemetry.required_vo: P_Telemetry.v Ast.vo Generated.vo Config.vo Model.vo
 P_Telemetry.vio: P_Telemetry.v Ast.vio Generated.vio Config.vio Model.vio
 P_Telemetry.vos P_Telemetry.vok P_Telemetry.required_vos: P_Telemetry.v Ast.vos Generated.vos Config.vos Model.vos
@@ -64,6 +67,9 @@ Shapes.vos Shapes.vok Shapes.required_vos: Shapes.v Ast.vos Generated.vos HookSi
 Sites.vo Sites.glob Sites.v.beautified Sites.required_vo: Sites.v Ast.vo Generated.vo HookSites.vo
 Sites.vio: Sites.v Ast.vio Generated.vio HookSites.vio
 Sites.vos Sites.vok Sites.required_vos: Sites.v Ast.vos Generated.vos HookSites.vos
+SrcMap.vo SrcMap.glob SrcMap.v.beautified SrcMap.required_vo: SrcMap.v 
+SrcMap.vio: SrcMap.v 
+SrcMap.vos SrcMap.vok SrcMap.required_vos: SrcMap.v 
 ToConfig.vo ToConfig.glob ToConfig.v.beautified ToConfig.required_vo: ToConfig.v Ast.vo Generated.vo Config.vo
 ToConfig.vio: ToConfig.v Ast.vio Generated.vio Config.vio
 ToConfig.vos ToConfig.vok ToConfig.required_vos: ToConfig.v Ast.vos Generated.vos Config.vos
